@@ -25,13 +25,17 @@ EXPLANATION = ("Result.update and Result.merge are symbolically executed on Resu
                "empty result as unit, hence fold(update) is a monoid homomorphism and every chunking/association gives the same "
                "view (lemma L-FOLD, induction over merge plans, machine-checked in Lean 4 in the thorough tier) - additionally executed directly for all chunkings of sequences of length "
                "<= 4 with symbolic observations.  Set level: merge_all_results merges per name and the object graphs of the two "
-               "sets stay disjoint (no shared Result / list / array).  Grid union (combine_*) is a bounded native check.")
+               "sets stay disjoint (no shared Result / list / array).  Grid union: combine_simulation_results is symbolically executed for "
+               "two grids of arbitrary ascending symbolic values (np.union1d runs natively on the symbolic values: one path per ordering and "
+               "coincidence pattern) - union grid, per-point merge of exactly the operands that hold the value, operands unchanged; larger "
+               "grids / two parameters / mixed dtypes in the bounded native check.")
 ASSUMPTIONS = [
     "ideal-real arithmetic for float statistics (float + is not associative); integer statistics exact",
     "lemma L-FOLD (singleton + associativity + right unit => every merge plan over contiguous chunks gives the view of one result "
     "updated with the whole sequence; without the unit for plans whose chunks are non-empty, as for MISC) is the induction over "
     "the proved obligations: machine-checked in Lean 4 (lemmas/FoldChunking.lean) in the thorough tier, assumed in the quick tier",
-    "combine_simulation_results/parameters (np.union1d grids): bounded native check only",
+    "combine_simulation_results/parameters: proved for one unpacked parameter and grid sizes up to 3 x 2 (values symbolic); "
+    "two unpacked parameters, mixed dtypes and larger grids only in the bounded native check",
 ]
 TRUSTED_BASE = ["python list/dict semantics and copy.deepcopy executed natively on the symbolic object graph"]
 BOUNDS = {"sequence_length": 4, "choice_num": 3, "list_lengths": [0, 1, 2]}
@@ -353,7 +357,7 @@ def ob_set_merge(typ, acc):
 
 @obligation("set/combine_overlapping_grids_symbolic_values", params=[{"typ": t, "la": la, "lb": lb} for t, la, lb in
                                                                     (("SUM", 2, 2), ("RATIO", 2, 1), ("CHOICE", 1, 2), ("SUM", 3, 2))],
-            timeout=600,
+            timeout=200,
             desc="combine_simulation_results(S1, S2) symbolically executed (combine_simulation_parameters, np.union1d natively on the symbolic "
                  "values - one path per ordering/coincidence pattern -, get_unpacked_params_list, get_pack_indexes incl. its eval'd index "
                  "expression, Result.merge) for grids of ARBITRARY ascending real values and results in arbitrary states: the union grid is "
